@@ -259,8 +259,13 @@ def obligations(ctx, grammars=("condition", "ahb")) -> None:
     from ahbicht.expressions import ahb_expression_parser as ahbp
     from ahbicht.expressions import condition_expression_parser as condp
     from specs import refparser
-    for gname, parser, wrap in (("condition", condp._parser, True), ("ahb", ahbp._parser, False)):
+    for gname, parser, wrap in (("condition", getattr(condp, "_parser", None), True),
+                                ("ahb", getattr(ahbp, "_parser", None), False)):
         if gname not in grammars:
+            continue
+        if parser is None or not hasattr(parser, "terminals"):
+            ctx.obligation(f"token-language/{gname}", "undecided", backend="automaton equivalence over all of Unicode",
+                           detail="the module-level Lark parser `_parser` was not found in this tree")
             continue
         for term in parser.terminals:
             t0 = time.time()
